@@ -169,7 +169,7 @@ fn inputs(cfg: &RunCfg) -> Vec<Input> {
     }
     out.push(Input {
         label: "constraints-and-values".into(),
-        text: "Cv-Mod DEFINITIONS ::= BEGIN\nA ::= INTEGER (0..10 | 20..30, ...)\nB ::= OCTET STRING (SIZE (1..4))\nC ::= IA5String (FROM (\"a\"..\"z\")) (SIZE (2))\nD ::= SEQUENCE { a [0] EXPLICIT A DEFAULT 5, b SET OF B, c BIT STRING { x(0), y(1) } OPTIONAL, ..., [[ 2: d NULL ]] }\nE ::= CHOICE { p [APPLICATION 1] IMPLICIT A, q OBJECT IDENTIFIER }\nv1 D ::= { a 3, b { 'AB'H } }\nv2 E ::= p : 7\nv3 OBJECT IDENTIFIER ::= { iso standard 8571 }\nv4 BIT STRING ::= '0101'B\nF ::= ENUMERATED { one(1), two, ..., three }\nG ::= A (ALL EXCEPT 5)\nEND\n".into(),
+        text: "Cv-Mod DEFINITIONS ::= BEGIN\nA ::= INTEGER (0..10 | 20..30, ...)\nB ::= OCTET STRING (SIZE (1..4))\nC ::= IA5String (FROM (\"a\"..\"z\")) (SIZE (2))\nD ::= SEQUENCE { a [0] EXPLICIT A DEFAULT 5, b SET OF B, c BIT STRING { x(0), y(1) } OPTIONAL, ..., [[ 2: d NULL ]] }\nE ::= CHOICE { p [APPLICATION 1] IMPLICIT A, q OBJECT IDENTIFIER }\nv1 D ::= { a 3, b { 'AB'H } }\nv2 E ::= p : 7\nv3 OBJECT IDENTIFIER ::= { iso standard 8571 }\nv4 BIT STRING ::= '0101'B\nF ::= ENUMERATED { one(1), two, ..., three }\nG ::= A (ALL EXCEPT 5)\nH ::= IA5String (FROM (\"a\"..\"f\", ...))\nI ::= INTEGER (0..10, ..., 20..30)\nJ ::= INTEGER (4, ..., 6 | 8)\nK ::= UTF8String (SIZE (1..4, ..., 8)) (FROM (\"x\" | \"y\", ...))\nEND\n".into(),
     });
     out.push(Input {
         label: "classes-and-parameters".into(),
